@@ -14,6 +14,7 @@ from typing import Dict, List, Optional
 
 from ..algebra import Rat, to_rat
 from ..index import AnalysisError, call_name, norm, norm1
+from ..sem import Sem
 from .c12 import check_reorder
 from .common import Frag, calls, const_of, enclosing, fctx, in_body, is_name, kwarg, method_calls, pmatch, stmts
 
@@ -285,9 +286,15 @@ def run(ctx) -> None:
                  f"KpointBZpath stores `{norm1(kv) if kv is not None else None}` instead of its batch of k-vectors (as rows of 3)")
     dk = idx.function("wannierberri/data_K/data_K.py", "Data_K.__init__")
     kpar = "Kpoint"
-    got = pmatch(dk.node, f"if isinstance({kpar}, KpointBZpath):\n    KL = {kpar}.K\n    ...\nelse:\n    ...", {"KL"}) or \
-        pmatch(dk.node, f"if isinstance({kpar}, KpointBZpath):\n    ...\n    KL = {kpar}.K\n    ...\nelse:\n    ...", {"KL"}) or \
-        pmatch(dk.node, f"if isinstance({kpar}, KpointBZpath):\n    ...\n    KL = {kpar}.K\n    ...", {"KL"})
+    DS = Sem(idx, dk)
+    got = False
+    for ds_ in DS.du.defs_at.values():
+        for d_ in ds_:
+            if d_.value is not None and norm(d_.value) == f"{kpar}.K" and d_.kind == "assign":
+                conds = [t_ for t_, p_, _ in DS.conditions(d_.stmt, resolve=False) if p_]
+                under = any(f"isinstance({kpar}, KpointBZpath)" in t_ for t_ in conds)
+                stores = [s_ for s_ in stmts(dk.node) if isinstance(s_, ast.Assign) and norm(s_.targets[0]) == "self.k_list" and norm(s_.value) == d_.name]
+                got = got or (under and bool(stores))
     r5.check(bool(got), "a path K-point is evaluated at its own k-list", dk, dk.node, "Data_K no longer takes k_list from the path K-point", stmt="k_list = Kpoint.K")
 
 
